@@ -27,13 +27,13 @@ REQUIRED_FEATURES = ["all_keys_collide", "negative_key", "large_key", "unsigned_
                      "absent_key_empty_bucket", "vector_with_absent", "lazy_form_materialised", "bfs_depth2"]
 BOUNDS = {"quick": "grid: every non-empty key subset of size <= 3 of {0,1,2,3,7,-1,-3,2**62} (int64), moduli {default,1,2,3,5,64}, 4 value forms; "
                    "the dtype list {int32,int8,uint8,uint64,python list} on 14 key sets; universe of 10 probe keys, all 100 pair queries. "
-                   "bfs: 18 configurations, all histories of depth <= 2 over ~20 state-changing operations, full observation of every distinct state",
+                   "bfs: 20 configurations, all histories of depth <= 2 over ~20 state-changing operations, full observation of every distinct state",
           "thorough": "grid: subsets of size <= 4 incl. all insertion orders for size <= 3; bfs: depth 3, 40 configurations"}
 
 U = [0, 1, 2, 3, 5, 7, -1, -3, 2 ** 62, 2 ** 62 + 1]
 KEYU = [0, 1, 2, 3, 7, -1, -3, 2 ** 62]
 MODS = [None, 1, 2, 3, 5, 64]
-VFORMS = ["ints", "floats", "scalar0", "scalar7"]
+VFORMS = ["ints", "floats", "scalar0", "scalar7", "scalar_half"]
 DTYPE_KEYSETS = [[0], [3], [0, 1], [1, 3], [2, 7], [0, 1, 2], [5, 3, 1], [7, 0, 2], [1, 2, 3, 5], [-1], [-3, 1], [-1, 0, 2], [2 ** 62, 1], [2 ** 62 + 1, 2 ** 62, 0]]
 
 
@@ -70,7 +70,7 @@ BFS_CONFIGS = [
     [[0, 1, 2], None, "int64", "ints"], [[0, 1, 2], 1, "int64", "scalar0"], [[1, 3], 2, "int64", "scalar7"], [[5, -1, 2], 3, "int64", "floats"],
     [[3, 0, 7, 1], None, "int64", "scalar0"], [[2 ** 62, 1], None, "int64", "ints"], [[-3, -1], 2, "int64", "scalar7"], [[7], None, "int64", "scalar0"],
     [[0, 1, 2], 2, "uint8", "ints"], [[1, 3], None, "uint64", "scalar0"], [[2, 7], 5, "int8", "scalar7"], [[0, 1], 64, None, "ints"],
-    [[1, 2, 3, 5], 1, "int32", "scalar0"], [[0, 2], None, "int32", "floats"], [[-1, 0, 2], 5, "int8", "ints"], [[3], 1, "uint8", "scalar7"],
+    [[1, 2, 3, 5], 1, "int32", "scalar0"], [[1, 3], 2, "int64", "scalar_half"], [[0, 1, 2], None, "int8", "scalar_half"], [[0, 2], None, "int32", "floats"], [[-1, 0, 2], 5, "int8", "ints"], [[3], 1, "uint8", "scalar7"],
     [[2 ** 62 + 1, 2 ** 62, 0], 2, "int64", "scalar0"], [[1, 2], 3, "uint64", "ints"],
 ]
 BFS_CONFIGS_T = [[ks, m, "int64", vf] for ks in ([0, 1], [1, 2, 3], [7, -3], [0, 2, 2 ** 62]) for m in (None, 1, 3) for vf in ("ints", "scalar0")][:22]
@@ -80,6 +80,10 @@ def cases(shard, tier):
     keys, kdt = shard["grid"], shard["kdt"]
     for mod in MODS:
         for vf in VFORMS:
+            if vf == "scalar_half" and mod not in (None, 2):
+                continue
+            if vf == "scalar7" and mod in (3, 64):
+                continue
             yield ["grid", keys, mod, kdt, vf]
 
 
@@ -89,6 +93,8 @@ def init_values(keys, vf):
         return [10 * (i + 1) for i in range(len(keys))]
     if vf == "floats":
         return [1.5 + i for i in range(len(keys))]
+    if vf == "scalar_half":
+        return 0.5
     return 0 if vf == "scalar0" else 7
 
 
@@ -98,6 +104,8 @@ def make(keys, mod, kdt, vf, values=None):
     v = init_values(keys, vf) if values is None else values
     if isinstance(v, list):
         return HashTable(karr, np.array(v), mod=mod)
+    if vf == "scalar_half":
+        return HashTable(karr, v, mod=mod)          # float scalar, no value_dtype given
     return HashTable(karr, v, mod=mod, value_dtype=np.int64 if vf != "floats" else np.float64)
 
 
@@ -134,11 +142,15 @@ def observe_table(acc, t_factory, d, keys, mod, kdt, probe_keys, pairs, tag="", 
                 acc.fail("absent-key-answered-with-a-value", (k, "refused or empty"), o, classifier=cl("get1-absent", [k]))
     for q in pairs:
         present = all(k in d for k in q)
-        for form in ("list", "array"):
+        for form in ("list", "array", "array64"):
             if form == "array":
                 if kdt is not None and not _fits(q, kdt):
                     continue
                 qq = np.array(q, dtype=kdt or np.int64)
+            elif form == "array64":
+                if kdt in (None, "int64") or not _fits(q, "int64"):
+                    continue
+                qq = np.array(q, dtype=np.int64)        # wider / differently signed than the key dtype
             else:
                 qq = list(q)
             o = attempt(lambda: _vals(t_factory()[qq]))
@@ -167,7 +179,7 @@ def observe_table(acc, t_factory, d, keys, mod, kdt, probe_keys, pairs, tag="", 
 
 def _classify_factory(keys, mod, kdt, scalar_form):
     def cl(kind, q, form=None):
-        if kdt == "uint64" and form == "list" and kind in ("getv", "getv-absent", "contains") and \
+        if kdt == "uint64" and form in ("list", "array64") and kind in ("getv", "getv-absent", "contains") and \
                 max([abs(k) for k in list(keys) + list(q)]) >= 2 ** 53:
             return "c11.uint64-keys-compared-with-int64-query-in-float64"
         if kdt == "uint64" and mod is None and kind in ("getv", "getv-absent", "contains"):
@@ -219,7 +231,7 @@ def _check_grid(case, acc):
         acc.fail("constructor-refused", "constructed", t)
         return
     # probe keys outside the table's key dtype are outside the statement (numpy refuses the mixed-width arithmetic)
-    probe = [k for k in U if _fits([k], kdt)]
+    probe = list(U) + ([300, -200] if kdt in ("int8", "uint8") else [])
     m = eff_mod(keys, mod)
     buckets = {k % m for k in keys}
     absent = [k for k in probe if k not in keys]
@@ -408,7 +420,8 @@ def _observe_state(acc, cfg, hist):
     coll = [k for k in absent if k % m in buckets][:1]
     free = [k for k in absent if k % m not in buckets][:1]
     probe = list(keys) + coll + free + ([absent[0]] if not (coll or free) else [])
-    probe = [k for k in probe if _fits([k], kdt)]
+    if kdt in ("int8", "uint8"):
+        probe = probe + [k + 256 for k in keys[:1]]       # aliases a stored key after a cast to the key dtype
     pairs = list(itertools.product(probe, repeat=2))
     t0, _ = replay(cfg, hist)
     scalar_form = not hasattr(getattr(t0, "_values", None), "_shape")
